@@ -295,7 +295,7 @@ static void caseC01(uint64_t idx, vh::Rng& g)
 		}
 		{ int rc = 0; std::string out = runVata("-r expl -o dir=down,rec=no,optC=yes incl " + fa + " " + fb, rc); R->count("runs-unimplemented:cli-expl/down-nonrec-opt"); if (rc == 0 && ref >= 0 && !((out.compare(0, 1, "1") == 0 && ref == 1) || (out.compare(0, 1, "0") == 0 && ref == 0))) R->violation("C01/cli-expl/down-nonrec-opt/wrong-verdict-instead-of-error", "unimplemented selection printed: " + out.substr(0, 100)); }
 	}
-	if (idx % 16 == 0)
+	if (vh::splitmix64(idx * 11 + 5) % 16 == 0)
 	{	// unimplemented selections must throw NotImplementedException
 		Aut x, y; mkPair(x, y);
 		R->phase("expl/unimplemented");
@@ -437,7 +437,7 @@ static void caseC07(uint64_t idx, vh::Rng& g)
 			else judge("C07", c.name, out[0] == '1', ref, expl);
 		}
 	}
-	if (idx % 16 == 0)
+	if (vh::splitmix64(idx * 11 + 5) % 16 == 0)
 	{
 		R->phase("bdd/unimplemented");
 		SharedDict sd; auto x = loadText<BDDBottomUpTreeAut>(sa, sd), y = loadText<BDDBottomUpTreeAut>(sb, sd);
